@@ -444,7 +444,7 @@ def _edited_earlier_revision(world, root, m, st):
     else:
         import re as _re
         suffix = os.path.splitext(m["cfg"]["target_file_path"])[1]
-        earlier_cfg = _re.sub(r'(?m)^target_file_path\s*=.*$', 'target_file_path = "out/earlier_revision%s"' % suffix, cfg_text)
+        earlier_cfg = _re.sub(r'(?m)^target_file_path\s*=.*$', 'target_file_path = "%s/earlier_revision%s"' % (os.path.dirname(m["cfg"]["target_file_path"]), suffix), cfg_text)
     if earlier_cfg == cfg_text:
         return None
     with open(victim, "w", encoding="utf-8") as f:
